@@ -2014,6 +2014,9 @@ class H2Connection:
         if SettingCodes.MAX_FRAME_SIZE in changes:
             setting = changes[SettingCodes.MAX_FRAME_SIZE]
             self.max_inbound_frame_size = setting.new_value
+            # The new limit is in force from this acknowledgement on, also
+            # for frames that follow it in the data being processed.
+            self.incoming_buffer.max_frame_size = setting.new_value
 
         if SettingCodes.HEADER_TABLE_SIZE in changes:
             setting = changes[SettingCodes.HEADER_TABLE_SIZE]
